@@ -33,7 +33,8 @@ Permitted(type, purpose) ==
 (* ids: 1-50 characters of [A-Za-z0-9_-] *)
 IdOk(id) == id.present /\ id.len >= 1 /\ id.len <= 50 /\ id.chars = "ok"
 
-IdVals == [present : {TRUE}, len : {0, 1, 50, 51}, chars : {"ok"}]
+\* (256 and 306: lengths that are 0 and 50 modulo 256)
+IdVals == [present : {TRUE}, len : {0, 1, 50, 51, 256, 306}, chars : {"ok"}]
             \cup [present : {TRUE}, len : {1, 50}, chars : {"space", "dot", "nonascii", "slash", "kelvin", "longs", "linefeed",
                                                                      \* (a '#' in front - the relative form of an id in resolved documents; a blank at the end)
                                                                      "hash_first", "space_last"}]
@@ -105,7 +106,7 @@ BaseSvc == [id |-> [present |-> TRUE, len |-> 1, chars |-> "ok"], type |-> [pres
 
 SvcFieldVals ==
     [id       |-> IdVals,
-     type     |-> [present : {TRUE}, len : {0, 1, 30, 31}] \cup {[present |-> FALSE, len |-> 0]},
+     type     |-> [present : {TRUE}, len : {0, 1, 30, 31, 256, 286}] \cup {[present |-> FALSE, len |-> 0]},
      endpoint |-> EndpointVals,
      extra    |-> {"none", "priority", "routingKeys"}]        \* further service members are allowed
 
